@@ -173,7 +173,18 @@ class Broker:
 
         # Update _margin requirements. Bid-ask spread is implicitly paid
         # here and now.
-        self._last_marking_to_market_price[trade.contract] = trade.acq_price
+        # Only the traded quantity is marked at the acquisition price: the
+        # position held before the trade has just been marked at its
+        # liquidation price and must not pay the spread a second time.
+        quantity = self._holdings_quantity[trade.contract]
+        if quantity != 0:
+            last_price = self._last_marking_to_market_price.get(
+                trade.contract, trade.acq_price
+            )
+            self._last_marking_to_market_price[trade.contract] = (
+                (quantity - trade.quantity) * last_price
+                + trade.quantity * trade.acq_price
+            ) / quantity
         self.marking_to_market(trade.contract)
 
     def marking_to_market(
